@@ -33,7 +33,13 @@ def _named(clauses, prefix):
 class Contract:
     def __init__(self, key, props, params, requires=None, ensures=None, modifies=(), loops=None, ghost=None,
                  returns=None, raises=None, call_ghost=None, gen=None, notes="", obligations_for=None,
-                 assumed=None, after_loop=None, hints=None, rt_only=None):
+                 assumed=None, after_loop=None, hints=None, rt_only=None, ghost_vars=None, ghost_after=None,
+                 exit_hints=None):
+        self.exit_hints = exit_hints or {}      # {loop ordinal: [lemma calls]} facts added on the loop's normal exits
+        # ghost_vars: {name: init expr} local ghost variables; ghost_after: {callee: {ghost var: expr}} ghost updates
+        # executed right after each call to `callee` (the callee's ghost arguments are visible as g_<name>)
+        self.ghost_vars = dict(ghost_vars or {})
+        self.ghost_after = dict(ghost_after or {})
         self.key = key
         self.path, self.qualname = key.split("::")
         self.name = self.qualname.split(".")[-1]
